@@ -39,9 +39,10 @@ func bytesOf(a []int) []byte {
 
 // ndjson writer
 type ndw struct {
-	f *os.File
-	w *bufio.Writer
-	n int
+	f     *os.File
+	w     *bufio.Writer
+	n     int
+	flush bool // flush after every record (the process may die on the next case)
 }
 
 func newNDW(path string) (*ndw, error) {
@@ -60,6 +61,9 @@ func (w *ndw) put(v interface{}) {
 	w.w.Write(b)
 	w.w.WriteByte('\n')
 	w.n++
+	if w.flush {
+		w.w.Flush()
+	}
 }
 
 func (w *ndw) close() error {
